@@ -3,7 +3,8 @@ import gens, common
 from common import Failure
 from refids import (ref_id, ref_decode, all_ids, num_cells, s_patterns, MAXV, ref_parent, ref_children_set, random_valid_id, ref_res)
 
-LEAN_MODULES = ['A5.Props.C06']
+LEAN_MODULES = ['A5.Props.C06', 'A5.Props.SrcTie.Tree']
+SRC_TIE = True
 LEVEL = 'proof'
 EXPLANATION = ('Lean theorems for every cell (symbolic S) and all a <= res <= b <= 29, unbounded depth: children list = exactly the valid level-b ids whose parent at res(c) is c, '
                'Nodup, length = get_num_children; parent composes, is total and unique; for res >= 1 the children are first + i*stride and contain every valid id between first and last; '
